@@ -565,52 +565,57 @@ def r09d(ck, prog):
     ck.floor("R09d", cnt, 14, "plumbing sites")
 
 
+def eval_setter(prog, name):
+    """constant evaluation of a per-type parameter setter on a fresh (all-undefined) aln_param with a 23x23 matrix:
+    -> ({'gpo': v, 'gpe': v, 'tgpe': v}, matrix rows) with UNDEF for what the setter leaves untouched; None if the
+    setter is not input-free"""
+    from ..consteval import Interp, Undecided, Ptr, UNDEF
+    it = Interp(prog)
+    obj = it.new_struct("aln_param")
+    obj["subm"] = Ptr([Ptr([UNDEF] * 23, 0) for _ in range(23)], 0)
+    F = prog.fn(name)
+    idx = next((i for i, p_ in enumerate(F.params) if p_["ty"].replace(" ", "").replace("const", "") == "structaln_param*"), None)
+    if idx is None:
+        return None
+    args = [UNDEF] * len(F.params)
+    args[idx] = Ptr(obj)
+    try:
+        it.call(name, args)
+    except Undecided:
+        return None
+    except Exception:
+        return None
+    return {p_: obj[p_] for p_ in PENALTIES}, [list(row.arr) for row in obj["subm"].arr], UNDEF
+
+
 def r09e(ck, prog):
-    def consts_of(fname, depth=0):
-        fn = prog.fn(fname)
-        out = {}
-        helpers = [prog.functions[c.callee] for c in fn.body.calls() if c.callee in prog.functions and
-                   prog.functions[c.callee].file == fn.file and c.callee != fname and
-                   any(p_["ty"].replace(" ", "") == "structaln_param*" for p_ in prog.functions[c.callee].params)]
-        for p in PENALTIES:
-            vals = [const_value(rhs) for _, _, rhs in stores_to_field(fn.body, "aln_param", p)]
-            if not vals and depth < 2:
-                for H in helpers:
-                    vals += consts_of(H.name, depth + 1)[1].get(p, [])
-            out[p] = vals
-        # matrix constants: stores through ap->subm[..][..]
-        mat = []
-        for n in fn.body.find("BinaryOperator"):
-            if n.d["op"] == "=" and "subm" in n.kids[0].text() and n.kids[0].strip().k == "ArraySubscriptExpr":
-                mat.append((const_value(n.kids[1]), n))
-        if not mat and depth < 2:
-            for H in helpers:
-                mat += consts_of(H.name, depth + 1)[1].get("matrix", [])
-        if depth == 0:
-            if not mat or any(v is None for v, _ in mat):
-                raise AnalysisBroken("R09e: the substitution scores of %s are not constants stored by it or by a setter it calls" % fname)
-            if any(not vals or any(v is None for v in vals) for vals in out.values()):
-                raise AnalysisBroken("R09e: %s does not set gpo/gpe/tgpe from constants (itself or through a setter it calls)" % fname)
-        out["matrix"] = mat
-        return fn, out
-    fd, d = consts_of("set_subm_gaps_DNA")
-    fi, di = consts_of("set_subm_gaps_DNA_internal")
-    for fn, dd, tg, tag in ((fd, d, README_DNA["tgpe"], "dna"), (fi, di, README_DNA["internal_tgpe"], "internal")):
+    """the documented DNA numbers, read off the parameter object after constant evaluation of the setter (so it does not
+    matter whether the setter assigns the fields itself, calls shared helpers or copies a table)"""
+    for name, tg, tag in (("set_subm_gaps_DNA", README_DNA["tgpe"], "dna"), ("set_subm_gaps_DNA_internal", README_DNA["internal_tgpe"], "internal")):
+        fn = prog.fn(name)
+        r = eval_setter(prog, name)
+        if r is None:
+            raise AnalysisBroken("R09e: %s could not be evaluated as input-free code (constant evaluation undecided)" % name)
+        pen, m, UNDEF = r
         for p, want in (("gpo", README_DNA["gpo"]), ("gpe", README_DNA["gpe"]), ("tgpe", tg)):
             where = site(prog, fn, p)
-            ck.inst("R09e", where, "%s: %s = %s (README: %s)" % (tag, p, dd[p], want), prog.config)
-            if dd[p] != [want]:
-                ck.violation("R09e", "R09e/%s/%s" % (fn.name, p), where,
-                             "%s default of --type %s is %s, README documents %s" % (p, tag, dd[p], want), prog.config)
-        # match / mismatch: the unconditional store is the mismatch, the store under i == j the match
-        mm = [v for v, n in dd["matrix"] if not guards(n, stop=None) or not any(c.strip().k == "BinaryOperator" and c.strip().d["op"] == "==" for c, _ in guards(n))]
-        ma = [v for v, n in dd["matrix"] if any(c.strip().k == "BinaryOperator" and c.strip().d["op"] == "==" and pol for c, pol in guards(n))]
+            ck.inst("R09e", where, "%s: %s = %s (README: %s)" % (tag, p, pen[p], want), prog.config)
+            if pen[p] is UNDEF:
+                continue                # left unset: reported by R09i
+            if pen[p] != want:
+                ck.violation("R09e", "R09e/%s/%s" % (name, p), where,
+                             "%s default of --type %s is %s, README documents %s" % (p, tag, pen[p], want), prog.config)
+        cells = [(i, j, m[i][j]) for i in range(23) for j in range(23) if m[i][j] is not UNDEF]
+        diag = sorted({v for i, j, v in cells if i == j})
+        off = sorted({v for i, j, v in cells if i != j})
         where = site(prog, fn, "matrix")
-        ck.inst("R09e", where, "%s: mismatch %s match %s (README: %s / %s)" % (tag, mm, ma, README_DNA["mismatch"], README_DNA["match"]), prog.config)
-        if mm != [README_DNA["mismatch"]] or ma != [README_DNA["match"]]:
-            ck.violation("R09e", "R09e/%s/matrix" % fn.name, where,
+        ck.inst("R09e", where, "%s: %d matrix cells set; mismatch %s match %s (README: %s / %s)" % (tag, len(cells), off, diag, README_DNA["mismatch"], README_DNA["match"]), prog.config)
+        if len(cells) < 16:
+            raise AnalysisBroken("R09e: %s sets only %d matrix cells" % (name, len(cells)))
+        if off != [README_DNA["mismatch"]] or diag != [README_DNA["match"]]:
+            ck.violation("R09e", "R09e/%s/matrix" % name, where,
                          "match/mismatch scores %s/%s differ from the documented %s/%s" % (
-                             ma, mm, README_DNA["match"], README_DNA["mismatch"]), prog.config)
+                             diag, off, README_DNA["match"], README_DNA["mismatch"]), prog.config)
 
 
 # --------------------------------------------------------------------------- R09i: every parameter setter is complete
@@ -627,6 +632,11 @@ def r09i(ck, prog):
             continue
         idx = next((i for i, p_ in enumerate(H.params) if p_["ty"].replace(" ", "").replace("const", "") == "structaln_param*"), None)
         if idx is None or not any(x.k in ("SwitchStmt", "CaseStmt", "DefaultStmt", "IfStmt") for x in c.ancestors()):
+            continue
+        r = eval_setter(prog, H.name)
+        if r is not None:
+            pen, _m, UNDEF = r
+            setters[H.name] = ({p_ for p_ in PENALTIES if pen[p_] is not UNDEF}, c)
             continue
         S = E.of_param(H.name, idx)
         if S.unknown:
